@@ -52,7 +52,7 @@ def run(ctx, which="cauchy"):
                 nontrivial += 1
             if v.startswith("bad") or v == "seqtie":
                 ctx.violation(f"{'C08' if which == 'cauchy' else 'C09'}_{v}",
-                              {"kind": f"lattice-{which}", "verdict": v, "input": lattice.slim(rec), "observed": det,
+                              {"kind": f"lattice-{which}", "verdict": v, "input": lattice.slim(rec), "observed": det, "record": rec,
                                "summary": f"n={rec['n']} mem={rec['mem']} x={rec['x']} g={rec['g']} lo={rec['lo']} hi={rec['hi']} -> {v}"})
         ctx.add_samples([lattice.slim(r) for r in recs[:2]])
     ctx.add_counts(evaluations=total, distinct_nontrivial=nontrivial)
@@ -76,7 +76,18 @@ def run(ctx, which="cauchy"):
     return ctx.finish("model_checking", RULE)
 
 
-def replay(ctx, path):
+def replay(ctx, path, which="cauchy"):
     rec = json.load(open(path))
-    inp = rec["input"]
-    raise Machinery("replay of lattice records: run ./check C08 (deterministic); input was " + json.dumps(inp))
+    if rec.get("kind") == "driver-trace":
+        from harness import drivercheck
+        return drivercheck.replay(ctx, path, ("C08_",) if which == "cauchy" else ("C09_",))
+    if "record" not in rec:
+        raise Machinery("this replay file carries no lattice record; re-run ./check (deterministic)")
+    r = rec["record"]
+    mats = lattice.real_mats(r)
+    v, det = (lattice.check_cauchy if rec["kind"].endswith("cauchy") else lattice.check_subspace)(r, mats)
+    print(json.dumps({"verdict": v, "observed": det, "expected": {"xcp": r["xcp"], "xbar": r["xbar"], "t": r["t"]}}, indent=1))
+    if v != "ok" and v != "knife":
+        ctx.violation(f"{ctx.pid}_{v}", {"kind": rec["kind"], "input": lattice.slim(r), "observed": det})
+    ctx.add_counts(evaluations=2, distinct_nontrivial=2)
+    return ctx.finish("model_checking", "replay of one lattice record")
